@@ -5,7 +5,7 @@
    of loop turns.  Time unit: 2^-10 s. *)
 From Coq Require Import List Arith ZArith Bool Lia.
 Import ListNotations.
-Require Import FV.Gen.C13 FV.C13.Model FV.C13.Lemmas FV.C13.Timing FV.C13.Slow.
+Require Import FV.Gen.C13 FV.C13.Model FV.C13.Lemmas FV.C13.Timing FV.C13.Slow FV.C13.Starve.
 Local Open Scope Z_scope.
 
 (* obligations on the facts regenerated from /repo (Gen/C13.v) *)
@@ -14,7 +14,8 @@ Theorem C13_source_facts :
   poll_default_handler = true /\ poll_common_rest = false /\ thread_collects_only_polled = true /\
   callpoll_contains_exceptions = true /\ callpoll_reraise_guarded = true /\ mainloop_never_reraises = true /\
   main_due_rule = true /\ wait_rule = true /\ slow_fresh_twice = 1 /\ refill_rule = true /\ trigger_rule = true /\
-  initialreads_contained = true /\ startup_single_pass = true /\ 0 < max_wait_ticks /\ 0 < startup_wait_ticks.
+  initialreads_contained = true /\ startup_single_pass = true /\ main_clock_per_module = true /\
+  refill_all_due = true /\ 0 < max_wait_ticks /\ 0 < startup_wait_ticks.
 Proof. repeat split; reflexivity. Qed.
 
 (* parameters marked as not polled (no read function, @nopoll, not the first key of a common handler), and
@@ -197,6 +198,51 @@ Theorem C13_one_slow_poll_per_turn : forall W s,
   (nreads (log s) <= nreads (log (turn W s)) <= S (nreads (log s)))%nat.
 Proof. intros W s. apply one_slow_poll_per_turn. Qed.
 
+(* no module on a shared poll thread is starved by another one - for every state (any history, run-time requests or
+   not), every duration and outcome script:
+   (1) in a loop turn that does not wait, the due test of module m is made in the state `turn_comes W (top W s) l1`
+       reached after the polls of the modules l1 before it in this sweep - its clock is the one read after the poll of
+       the previous module (second conjunct: that state is `main_step` of the previous module applied to the state in
+       which that module's turn came) - and a module due at THAT moment is polled in this very turn, at that moment
+       (however long the polls of the earlier modules took, and even if it was not yet due at the top of the turn);
+   (2) when the iterator of slow polls is used up (`scan .. = None`) the refill takes the polled parameters of ALL
+       modules whose slow round is due (`slow_due`), not only those of the first one: each of them is read in this
+       turn, waits in the new iterator (and is then dealt with within as many turns as the iterator is long:
+       C13_slow_round), or was skipped because its time stamp is younger than half a slow interval.
+   The code facts behind the two shapes: main_clock_per_module, refill_all_due (C13_source_facts). *)
+Theorem C13_no_module_starved :
+  (forall W s l1 m l2, finished s = false -> alive s = true -> waits W s = false ->
+     seq 0 (length (mods s)) = l1 ++ m :: l2 ->
+     let sm := turn_comes W (top W s) l1 in
+     alive sm = true -> enable (md (get_mod sm m)) = true ->
+     last_main (get_mod sm m) + interval (get_mod sm m) < now sm ->
+     In (LMain (now sm) m) (log (turn W s))) /\
+  (forall W s l0 p, turn_comes W s (l0 ++ [p]) = main_step W (turn_comes W s l0) p) /\
+  (forall W s, finished s = false -> alive s = true -> waits W s = false ->
+     let s1 := main_phase W (top W s) in
+     alive s1 = true -> wf s1 -> scan s1 (cur s1) = None ->
+     forall m i, slow_due (now s1) (get_mod s1 m) = true -> In i (polled_params (dsc s1 m)) ->
+       In (LRead (now s1) m i) (log (turn W s)) \/ In (m, i) (cur (turn W s)) \/ fresh s1 (m, i)).
+Proof.
+  split; [exact turn_polls_due|]. split; [exact turn_comes_after_previous|exact turn_refills_all_due].
+Qed.
+
+(* non-vacuity of (1): module 0 (interval 1 s) has a doPoll of 4 s, module 1 (interval 5 s) is not due at the top of
+   the second turn (t0 + 4106 <= t0 + 5120) but is when its turn comes (t0 + 8202): polled in the same turn *)
+Definition demo4_ds : list (mdesc * Z) :=
+  [({| enable := true; si := 15360; winit := false; iread := false; mainreads := []; params := [] |}, 1024);
+   ({| enable := true; si := 15360; winit := false; iread := false; mainreads := []; params := [] |}, 5120)].
+Definition demo4_W : world := {| script := fun n => (if Nat.even n then 4096 else 8, OOk); eps := 1; reconn := false |}.
+Example C13_demo_not_starved :
+  let s := run demo4_W 1 (init_state 1024000 demo4_ds []) in
+  now (top demo4_W s) <= last_main (get_mod s 1) + interval (get_mod s 1) /\
+  In (LMain (1024000 + 8202) 1%nat) (log (turn demo4_W s)).
+Proof.
+  cbv zeta. split; [vm_compute; congruence|].
+  apply (proj1 C13_no_module_starved demo4_W (run demo4_W 1 (init_state 1024000 demo4_ds [])) [0%nat] 1%nat []);
+    vm_compute; reflexivity.
+Qed.
+
 (* non-vacuity: two modules, reads that fail, the log of a short run *)
 Definition demo_ds : list (mdesc * Z) :=
   [({| enable := true; si := 2048; winit := false; iread := false; mainreads := [0%nat];
@@ -272,3 +318,4 @@ Print Assumptions C13_slow_bound_from.
 Print Assumptions C13_slow_inv_when_idle.
 Print Assumptions C13_slow_bound.
 Print Assumptions C13_one_slow_poll_per_turn.
+Print Assumptions C13_no_module_starved.
